@@ -69,7 +69,8 @@ def check_c08(tier):
     st = tlc("MC_SxgMsg", "SPECIFICATION Spec\nINVARIANTS MsgInjective CanonicalHeaders\nCHECK_DEADLOCK FALSE\n", "C08/mc") if os.path.exists(os.path.join(vlib.TLA, "MC_SxgMsg.tla")) else None
     if st:
         rep.add_tlc("MC_SxgMsg", st)
-    cases = _run_full(rep, "C08", tier, FULL_C08)
+    # "... so a signature made here verifies in any conforming implementation and vice versa": the verdicts count too
+    cases = _run_full(rep, "C08", tier, FULL_C08 | {"verify"})
     rep.cov["distinct_nontrivial"] = len(set((c["x"]["ver"], len(c["hdrs"]), len(c["x"]["uri"]), len(c["x"]["sighdr"])) for c in cases.values()))
     for c in list(cases.values())[:3]:
         rep.sample({"ver": c["x"]["ver"], "uri": txt(c["x"]["uri"])[:80], "signature_header": txt(c["x"]["sighdr"])[:160], "header_block_len": len(c["hdrs"]), "file_len": len(c["file"])})
@@ -181,6 +182,9 @@ def check_c01(tier):
     _neg_ver(rep, "C01", cases)
     rep.assumptions = ["certificate trust (steps 6-7 of the draft) is outside this library: authenticity is relative to the leaf certificate the fetcher returned",
                        "ECDSA malleability and edits of unsigned decoration may leave the verdict ok; the invariant is on content"]
+    # calls on independent objects running in parallel do not interfere (Trace_Purity, race detector)
+    from purity_checks import parallel_cold
+    parallel_cold(rep, "C01", "Exchange")
     return rep.finish()
 
 
@@ -217,6 +221,15 @@ def check_c09(tier):
     vh_to_file(["sxg-scn"], p2, stdin_path=sp_, timeout=3000)
     with open(p, "a") as f:
         f.write(open(p2).read())
+        # the same verifier in processes whose local zone has daylight saving (the cap is 604800 seconds, not 7 calendar days)
+        for tz in ("America/New_York", "Europe/Berlin"):
+            pz = os.path.join(wd, "pol-%s.ndjson" % tz.split("/")[1])
+            vh_to_file(["sxg-pol", "dst"], pz, timeout=3000, env={"TZ": tz})
+            for line in open(pz):
+                d = json.loads(line)
+                d["case"] = tz.split("/")[1] + "-" + d["case"]
+                d["note"] = d["note"] + " & TZ=%s" % tz
+                f.write(json.dumps(d) + "\n")
     cases, rejects = _judge(rep, "C09", p, 16, "pol")
     _ver_violations(rep, cases, rejects, "pol")
     # third verdict: the abstract policy model must agree with the real code on its own scenarios
